@@ -786,7 +786,11 @@ def _simple_expr(pdb, n, depth):
     if k == "Tup":
         return all(_simple_expr(pdb, x, depth) for x in n["es"])
     if k == "Binary":
-        return not n.get("fn") and _simple_expr(pdb, n["l"], depth) and _simple_expr(pdb, n["r"], depth)
+        # built-in arithmetic, or an (overloaded, by convention pure) equality test: `*self == Self::zero()`
+        pure = not n.get("fn") or (n.get("op") in ("==", "!=") and str(n.get("fn", "")).startswith("std::cmp::PartialEq::"))
+        return pure and _simple_expr(pdb, n["l"], depth) and _simple_expr(pdb, n["r"], depth)
+    if k == "Call" and not n.get("args") and n.get("f", {}).get("k") == "Def" and str(n["f"].get("fn", "")) in ("traits::Zero::zero", "traits::One::one"):
+        return True          # the additive / multiplicative identity of the element type
     if k == "MethodCall":
         path = n.get("impl") or n.get("fn")
         if path in LEN_IMPLS or n.get("fn") in LEN_IMPLS:
